@@ -117,6 +117,18 @@ class BaseCorrelations(BaseAPIClass):
                 type(self).__name__))
 
 
+def _function_key(function: Callable) -> object:
+    """Cache key for a user supplied function: the function object itself,
+    not its id (the id of a function that was replaced and garbage collected
+    can be given to a new function); unhashable callables get a key that is
+    never found in a cache. """
+    try:
+        hash(function)
+    except TypeError:
+        return object()
+    return function
+
+
 class CustomCorrelations(BaseCorrelations):
     r"""
     Encodes a custom auto-correlation function
@@ -197,7 +209,6 @@ class CustomCorrelations(BaseCorrelations):
         """
         return self.correlation_function(tau)
 
-    @lru_cache(maxsize=2 ** 10, typed=False)
     def correlation_2d_integral(
             self,
             delta: float,
@@ -206,6 +217,23 @@ class CustomCorrelations(BaseCorrelations):
             shape: Optional[Text] = 'square',
             epsrel: Optional[float] = INTEGRATE_EPSREL,
             subdiv_limit: Optional[int] = SUBDIV_LIMIT) -> complex:
+        """2D integrals of the correlation function (see
+        `_correlation_2d_integral`), cached for the current correlation
+        function. """
+        return self._correlation_2d_integral(
+            delta, time_1, time_2, shape, epsrel, subdiv_limit,
+            _function_key(self.correlation_function))
+
+    @lru_cache(maxsize=2 ** 10, typed=False)
+    def _correlation_2d_integral(
+            self,
+            delta: float,
+            time_1: float,
+            time_2: Optional[float] = None,
+            shape: Optional[Text] = 'square',
+            epsrel: Optional[float] = INTEGRATE_EPSREL,
+            subdiv_limit: Optional[int] = SUBDIV_LIMIT,
+            function_key: Optional[object] = None) -> complex:
         r"""
         2D integrals of the correlation function
 
@@ -524,15 +552,8 @@ class CustomSD(BaseCorrelations):
     def _parameters_key(self) -> tuple:
         """The current values of all parameters that determine the
         correlations (key for cached results). """
-        # the function object itself, not its id: the id of a function that
-        # was replaced (and garbage collected) can be given to a new function
-        j_function_key = self.j_function
-        try:
-            hash(j_function_key)
-        except TypeError: # unhashable callable: never served from the cache
-            j_function_key = object()
-        return (j_function_key, self.cutoff, self.cutoff_type,
-                self.temperature)
+        return (_function_key(self.j_function), self.cutoff,
+                self.cutoff_type, self.temperature)
 
     def eta_function(
             self,
